@@ -613,3 +613,52 @@ def expected_after(ws, first, goal_count):
         k_abs = ws.fail_at
         return k_abs - first, ws.trees[k_abs], ws.fail_at
     return last - first, ws.trees[last], None
+
+
+def generate_long(seed, npatches, nfiles=3, big_lines=0, p_fail=0.3):
+    """A long series of small patches over a few files (more patches than the default backup window of 100), optionally
+    on a file with more than 65535 lines.  Same ground-truth structure as generate()."""
+    r = random.Random(seed)
+    ws = Workspace()
+    ws.seed = seed
+    names = ["long/f%d.txt" % i for i in range(nfiles)]
+    tree = {}
+    for i, nme in enumerate(names):
+        n = big_lines if (big_lines and i == 0) else r.randint(5, 40)
+        tree[nme] = (b"".join(b"%s line %d\n" % (nme.encode(), k) for k in range(n)), 0o644)
+    ws.t0 = dict(tree)
+    ws.trees = [dict(tree)]
+    fail_idx = r.randrange(npatches) if r.random() < p_fail else None
+    for pi in range(npatches):
+        nme = r.choice(names)
+        data, mode = tree[nme]
+        lines = split_lines(data)
+        pos = r.randrange(len(lines)) if lines else 0
+        if big_lines and nme == names[0] and r.random() < 0.7:
+            pos = len(lines) - 1 - r.randrange(min(50, len(lines)))  # beyond line 65535
+        x = r.random()
+        if x < 0.5 or not lines:
+            lines.insert(pos, b"inserted by p%d\n" % pi)
+        elif x < 0.8:
+            lines[pos] = b"changed by p%d\n" % pi
+        else:
+            del lines[pos]
+        post = b"".join(lines) or b"kept\n"
+        op = Op("modify", nme, pre=data, post=post, pre_mode=mode, post_mode=mode)
+        op.ctx = r.choice([1, 2, 3, 3])
+        git = r.random() < 0.3
+        op.style = "git" if git else "plain"
+        p = PatchSpec("l%03d.patch" % pi, [op], 1, False, git)
+        work = dict(tree)
+        work[nme] = (post, mode)
+        if fail_idx == pi:
+            op.poison = "hunks"
+            op.poison_want = [0]
+        render_patch(p, r)
+        ws.patches.append(p)
+        if p.fails() and ws.fail_at is None:
+            ws.fail_at = pi
+        tree = work
+        if ws.fail_at is None:
+            ws.trees.append(dict(tree))
+    return ws
